@@ -25,4 +25,14 @@ CHECKS["C06"] = {
     "parts": [{"bin": "C06_mutex"}],
 }
 
+CHECKS["C08"] = {
+    "registered": True,
+    "engine": "pmc-rt",
+    "technique": "stateless deviation-bounded (preemptions + early timeouts) exhaustive schedule enumeration of semaphore programs on a live 2-worker runtime and on plain OS threads; sequential histories vs reference counter",
+    "level_text": "Every schedule within the deviation bound of every small acquire/try_acquire/release/timed-acquire program (all initial counts 0..2, programs that cannot terminate skipped), and of sliding-semaphore wait/try_wait/signal programs, is executed on the real code; a permit ledger, the final count, blocked-acquirer liveness (stuck detector) and the truthfulness of try/timed results are checked in each execution.",
+    "level_note": "Sequentially consistent interleavings only; 2 workers, 2-3 tasks; the virtual clock only lets a deadline pass as an explorer deviation or when nothing else can run; choice points at atomics on the semaphore object and task state words.",
+    "rule": "pmc-rt/pmc-os: initial count x op words (data choices) x all schedules within the deviation bound; sequential histories depth<=4",
+    "parts": [{"bin": "C08_semaphore"}],
+}
+
 PENDING = {}
